@@ -702,6 +702,38 @@ func (t *ftr) ioExpr(e ast.Expr, hint *ty) (ex, bool) {
 				}
 			}
 		}
+	case *ast.FuncLit:
+		// func(c *Config) { c.f = v … }: an option closure, a function Cfg → Cfg
+		if e.Type.Results == nil && len(e.Type.Params.List) == 1 && len(e.Type.Params.List[0].Names) == 1 && selName(e.Type.Params.List[0].Type) == "*Config" {
+			pn := e.Type.Params.List[0].Names[0].Name
+			t.push()
+			t.bind(pn, tCfg)
+			t.muts[pn] = true
+			savedRets, savedSp := t.rets, t.sp
+			spc := *t.sp
+			spc.inout = []string{pn}
+			spc.fx = ""
+			spc.recv = ""
+			t.sp = &spc
+			t.rets = nil
+			var b strings.Builder
+			fmt.Fprintf(&b, "(fun (%s : GoSnaps.Cfg) => Id.run do\n      let mut %s := %s\n", leanIdent(pn), leanIdent(pn), leanIdent(pn))
+			pb := t.partial
+			t.partial = false
+			b.WriteString(t.block(e.Body.List, "      ", nil))
+			cp := t.partial
+			t.partial = pb
+			fmt.Fprintf(&b, "      return %s)", leanIdent(pn))
+			t.pop()
+			t.rets, t.sp = savedRets, savedSp
+			if cp {
+				t.fail("the option closure contains an operation that can panic")
+			}
+			if t.err != nil {
+				return ex{}, true
+			}
+			return ex{b.String(), &ty{k: "func", params: []*ty{tCfg}, res: tCfg}, false}, true
+		}
 	case *ast.StarExpr:
 		// *c: the Config a pointer refers to (a copy, in value semantics the Config itself)
 		if id, ok := e.X.(*ast.Ident); ok && t.lookup(id.Name) != nil && t.lookup(id.Name).k == "cfg" {
@@ -710,6 +742,15 @@ func (t *ftr) ioExpr(e ast.Expr, hint *ty) (ex, bool) {
 	case *ast.UnaryExpr:
 		if e.Op == token.AND {
 			if id, ok := e.X.(*ast.Ident); ok {
+				if vt := t.lookup(id.Name); vt != nil && vt.k == "bool" && hint != nil && hint.k == "optbool" {
+					// &u stored in the *bool field: the option holds the value u had when it was built
+					// (the variable is never assigned afterwards — checked)
+					if t.muts[id.Name] {
+						t.fail("&%s of a variable that is assigned", id.Name)
+						return ex{}, true
+					}
+					return ex{"(some " + t.ln(id.Name) + ")", tOptB, false}, true
+				}
 				if vt := t.lookup(id.Name); vt != nil && vt.k == "cfg" {
 					return ex{t.ln(id.Name), tCfg, false}, true
 				}
@@ -1039,6 +1080,17 @@ func (t *ftr) ioStmt(b *strings.Builder, ind string, st ast.Stmt, res *ty) bool 
 		}
 		if c, ok := s.X.(*ast.CallExpr); ok {
 			if id, ok := c.Fun.(*ast.Ident); ok {
+				if ft := t.lookup(id.Name); ft != nil && ft.k == "func" && ft.res.k == "cfg" && len(ft.params) == 1 && len(c.Args) == 1 {
+					// opt(&s): the option updates the Config it is given
+					if u, ok := c.Args[0].(*ast.UnaryExpr); ok && u.Op == token.AND {
+						if v, ok := u.X.(*ast.Ident); ok && t.lookup(v.Name) != nil && t.lookup(v.Name).k == "cfg" {
+							fmt.Fprintf(b, "%s%s := %s %s\n", ind, t.ln(v.Name), t.ln(id.Name), t.ln(v.Name))
+							return true
+						}
+					}
+					t.stmtFail(b, ind, "call of an option on something other than the address of a local Config")
+					return true
+				}
 				if ft := t.lookup(id.Name); ft != nil && ft.k == "func" && ft.res.k == "unit" {
 					a, p, ok := t.args(id.Name, c, ft.params)
 					if !ok {
